@@ -135,6 +135,8 @@ fn map_diff(got: &HashMap<String, String>, want: &HashMap<String, String>) -> St
             d.push(format!("{k}: unexpected {:?}", short(v)));
         }
     }
+    // (hash-map iteration order must not leak into the observation: it is compared between two executions)
+    d.sort();
     d.join("; ")
 }
 fn short(s: &str) -> String {
